@@ -12,7 +12,7 @@
        (C13_go_answered_with_exactly_one_bestmove).
    Threads, the OS pipe and wall-clock promptness cannot be exhibited by a Gallina model (runtime, sampled by black-box runs through a
    real pipe); the session model is tied to the real main loop by scripted sessions with deterministic arrival of lines. *)
-From Coq Require Import NArith ZArith List Bool String.
+From Coq Require Import NArith ZArith List Bool String Lia.
 From JV Require Import Gen.Consts Model.Chess Model.TT Model.Search Model.SearchChess Model.Fen Model.Go Model.Uci Model.Eval Proofs.UciLoopProofs Props.C03.
 Import ListNotations.
 Local Open Scope string_scope.
@@ -196,7 +196,118 @@ Proof.
   - cbn [fst]. rewrite K. destruct (answerable_go (u, l)); reflexivity.
 Qed.
 
+(* ------------------------------------------------------------------ every isready of a session is answered exactly once *)
+Definition is_ready (o : uout) : bool := match o with OText s => String.eqb s "readyok" | _ => false end.
+Definition count_ready (outs : list uout) : nat := List.length (filter is_ready outs).
+Definition illegal_msg (m : string) : Prop := exists t, m = String.append "Illegal 'go' command: '" t.
+Definition idle_isready (line : string) : bool :=
+  negb (String.eqb (trim line) "") && String.eqb (lower_str (first_token (trim line))) "isready".
+Definition poll_ready (dl : nat * string) : bool := match poll_dispatch (trim (snd dl)) with PReady => true | _ => false end.
+
+Lemma count_ready_app a b : count_ready (a ++ b)%list = (count_ready a + count_ready b)%nat.
+Proof. unfold count_ready. rewrite filter_app, app_length. reflexivity. Qed.
+Lemma count_ready_msgs msgs : Forall illegal_msg msgs -> count_ready (map OText msgs) = O.
+Proof.
+  intros F. induction F as [|m l (t & ->) _ IH]; [reflexivity|]. unfold count_ready in *. cbn [map filter is_ready].
+  change (String.eqb (String.append "Illegal 'go' command: '" t) "readyok") with false. exact IH.
+Qed.
+Lemma count_ready_repeat n : count_ready (repeat (OText "readyok") n) = n.
+Proof. induction n as [|n IH]; [reflexivity|]. unfold count_ready in *. cbn [repeat filter is_ready String.eqb Ascii.eqb Bool.eqb List.length]. rewrite IH. reflexivity. Qed.
+Lemma count_ready_search l : count_ready (map OSearchOut l) = O.
+Proof. unfold count_ready. rewrite (filter_map_none OSearchOut) by reflexivity. reflexivity. Qed.
+
+Lemma go_tokens_msgs white f : forall a toks msgs, Forall illegal_msg msgs ->
+  match go_tokens white a toks msgs f with GoArgs _ ms | GoReturn ms => Forall illegal_msg ms | _ => True end.
+Proof.
+  induction f as [|f IH]; intros a toks msgs F; cbn [go_tokens]; [exact F|].
+  destruct toks as [|t r]; [exact F|].
+  destruct (String.eqb t ""); [apply IH; exact F|].
+  assert (EXT : Forall illegal_msg (msgs ++ [String.append "Illegal 'go' command: '" (String.append t "'")])%list).
+  { apply Forall_app. split; [exact F|]. constructor; [eexists; reflexivity|constructor]. }
+  repeat match goal with
+         | |- context [if ?c then _ else _] => lazymatch c with context [go_tokens] => fail | _ => destruct c end
+         | |- context [match ?x with _ => _ end] => lazymatch x with context [go_tokens] => fail | _ => destruct x end
+         end; try exact F; try exact I; try (apply IH; assumption).
+Qed.
+
+Lemma step_ready_count extra dl u line input :
+  let '(_, outs, _, input', _) := uci_step extra dl u line input in
+  count_ready outs = ((if idle_isready line then 1 else 0) +
+                      List.length (filter poll_ready (firstn (List.length input - List.length input') input)))%nat.
+Proof.
+  unfold uci_step, idle_isready. cbv zeta.
+  destruct (String.eqb (trim line) "") eqn:E0; [rewrite Nat.sub_diag; reflexivity|]. cbn [negb andb].
+  set (cmd := lower_str (first_token (trim line))).
+  destruct (String.eqb_spec cmd "isready") as [EI|NI].
+  { rewrite EI. cbn [String.eqb Ascii.eqb Bool.eqb orb]. rewrite Nat.sub_diag. reflexivity. }
+  destruct (String.eqb cmd "quit" || String.eqb cmd "exit" || String.eqb cmd "x")%bool; [rewrite Nat.sub_diag; reflexivity|].
+  destruct (String.eqb cmd "uci"); [rewrite Nat.sub_diag; reflexivity|].
+  destruct (String.eqb_spec cmd "isready") as [E|_]; [contradiction|].
+  destruct (String.eqb cmd "ucinewgame" || String.eqb cmd "cleartt")%bool; [rewrite Nat.sub_diag; reflexivity|].
+  destruct (String.eqb cmd "d"); [rewrite Nat.sub_diag; reflexivity|]. destruct (String.eqb cmd "eval"); [rewrite Nat.sub_diag; reflexivity|].
+  destruct (String.eqb cmd "position").
+  { destruct (negb _); [rewrite Nat.sub_diag; reflexivity|]. destruct (parse_position _) as [[g rep]| |]; rewrite Nat.sub_diag; reflexivity. }
+  destruct (String.eqb cmd "go").
+  - pose proof (go_tokens_msgs (white (u_game u)) (S (String.length (trim line))) go_init (split_sp (skip 2 (trim line))) [] (Forall_nil _)) as M.
+    destruct (go_tokens _ _ _ _ _) as [a msgs|msgs| |]; [| rewrite Nat.sub_diag; exact (count_ready_msgs msgs M) | rewrite Nat.sub_diag; reflexivity | rewrite Nat.sub_diag; reflexivity].
+    destruct (session_search _ _ _ _ _ _) as [so e sc|]; [|rewrite Nat.sub_diag; reflexivity].
+    destruct (poll_schedule input 0 _ (List.length input)) as [[nready stopper] rest] eqn:PS.
+    rewrite !count_ready_app, (count_ready_msgs msgs M), count_ready_repeat, count_ready_search.
+    rewrite (poll_schedule_ready_count _ _ _ _ _ _ _ PS). unfold poll_ready. cbn [plus]. rewrite Nat.add_0_r. reflexivity.
+  - destruct (String.eqb cmd "stop"); [rewrite Nat.sub_diag; reflexivity|].
+    destruct (String.eqb cmd "move"). { destruct (play_moves _ _ _) as [[g rep]| |]; rewrite Nat.sub_diag; reflexivity. }
+    destruct (String.eqb cmd "perft").
+    { destruct (rest_tokens (trim line)) as [|t r]; [rewrite Nat.sub_diag; reflexivity|]. destruct (String.eqb t "simple"); [rewrite Nat.sub_diag; reflexivity|].
+      destruct (parse_uint 256 t) as [d|]; [|rewrite Nat.sub_diag; reflexivity]. destruct (d =? 0)%N; rewrite Nat.sub_diag; reflexivity. }
+    destruct (String.eqb cmd "perft!").
+    { destruct (rest_tokens (trim line)) as [|t r]; [rewrite Nat.sub_diag; reflexivity|].
+      destruct (parse_uint 256 t) as [d|]; [|rewrite Nat.sub_diag; reflexivity]. destruct (d =? 255)%N; [rewrite Nat.sub_diag; reflexivity|].
+      rewrite Nat.sub_diag, count_ready_app. unfold count_ready at 1. rewrite filter_map_none by reflexivity. reflexivity. }
+    destruct (_ || _)%bool; rewrite Nat.sub_diag; reflexivity.
+Qed.
+
+(* the lines the main loop executes, each with the lines that polls took off the input while it was being executed *)
+Fixpoint uci_exec_io (extra : N) (dls : list nat) (fuel : nat) (u : ustate) (pending : option string) (input : list (nat * string))
+  : list (string * list (nat * string)) :=
+  match fuel with
+  | O => []
+  | S f =>
+    let next : option (string * list (nat * string)) :=
+      match pending with
+      | Some l => Some (l, input)
+      | None => match input with (_, l) :: r => Some (l, r) | [] => None end
+      end in
+    match next with
+    | None => []
+    | Some (l, input') =>
+      let '(u', outs, requeue, input'', st) := uci_step extra (List.hd O dls) u l input' in
+      (l, firstn (List.length input' - List.length input'') input') ::
+      match st with Continue => uci_exec_io extra (List.tl dls) f u' requeue input'' | _ => [] end
+    end
+  end.
+
+(* every session, whatever its lines and their timing: the number of readyok lines printed is the number of isready lines the main loop executed
+   plus the number of isready lines taken by polls during searches -- each is answered once, and nothing else prints readyok *)
+Theorem C13_every_isready_of_a_session_is_answered_exactly_once : forall extra dls fuel u pending input,
+  count_ready (fst (uci_run extra dls fuel u pending input)) =
+  (List.length (filter idle_isready (map fst (uci_exec_io extra dls fuel u pending input))) +
+   List.length (filter poll_ready (List.concat (map snd (uci_exec_io extra dls fuel u pending input)))))%nat.
+Proof.
+  intros extra dls fuel. revert dls. induction fuel as [|f IH]; intros dls u pending input; [reflexivity|].
+  cbn [uci_run uci_exec_io].
+  destruct (match pending with Some l => Some (l, input) | None => match input with [] => None | (_, l) :: r => Some (l, r) end end) as [[l input']|]; [|reflexivity].
+  pose proof (step_ready_count extra (List.hd O dls) u l input') as K.
+  destruct (uci_step extra (List.hd O dls) u l input') as [[[[u' outs] rq] input''] st].
+  cbn [map fst snd List.concat filter]. rewrite filter_app, app_length.
+  destruct st.
+  - specialize (IH (List.tl dls) u' rq input''). destruct (uci_run extra (List.tl dls) f u' rq input'') as [outs' st']. cbn [fst] in *.
+    rewrite count_ready_app, K, IH. destruct (idle_isready l); cbn [List.length]; lia.
+  - cbn [fst map List.concat filter List.length]. rewrite K. destruct (idle_isready l); cbn [List.length]; lia.
+  - cbn [fst map List.concat filter List.length]. rewrite K. destruct (idle_isready l); cbn [List.length]; lia.
+Qed.
+
 Print Assumptions C13_uciok.
+Print Assumptions C13_every_isready_of_a_session_is_answered_exactly_once.
 Print Assumptions C13_every_go_of_a_session_is_answered_exactly_once.
 Print Assumptions C13_handed_back_line_is_executed_next.
 Print Assumptions C13_line_after_stop_is_not_lost.
